@@ -16,92 +16,57 @@ namespace PP.Settings
 
 /-! ## 1. leaving a context restores every setting, without raising -/
 
-/-- One context, *any* state `t` reached inside it: `restore` does not raise and every setting is
-    back to its entry value. (`restore_raw` in the lemma file gives the exact resulting state.) -/
+/-- One context, *any* state `t` reached inside it (or later: `restore()` may be called again on an
+    exited context object): `restore` does not raise, every setting is back to its entry value, and so
+    are the built-ins' `whiteChars` (the built-ins of `t` being the same objects, which `run_flags`
+    shows for every reachable `t`). (`restore_raw` in the lemma file gives the exact resulting state.) -/
 theorem restore_exact {cfg : Cfg} (hc : CfgOK cfg) {s t : State} (hs : WF cfg s) (ht : WF cfg t) :
     (restore cfg (save cfg s) t).2 = none ∧
     obs (restore cfg (save cfg s) t).1 = obs s ∧
     (restore cfg (save cfg s) t).1.memo = s.memo ∧
+    (flagsOf t.builtins = flagsOf s.builtins → (restore cfg (save cfg s) t).1.builtins = s.builtins) ∧
     WF cfg (restore cfg (save cfg s) t).1 := by
   rw [restore_raw hc hs ht]
-  exact ⟨rfl, obs_restoredState s t, rfl, WF_restoredState t hs⟩
+  exact ⟨rfl, obs_restoredState s t, rfl, restoredBuiltins_eq s t, WF_restoredState t hs⟩
 
 example : CfgOK liveCfg ∧ WF liveCfg liveInit ∧
     WF liveCfg (stepOp liveCfg (.enableLR none true) (stepOp liveCfg (.enablePackrat (some 64) false) liveInit).1).1 :=
   ⟨⟨by decide, by decide, by decide⟩, ⟨by decide, by decide, by decide, by decide⟩,
    ⟨by decide, by decide, by decide, by decide⟩⟩
 
-theorem synced_brel_eq {w : List Char} : ∀ {l l' : List Expr}, BRelL l l' →
-    (∀ e ∈ l, e.copyDef = true → e.ws = w) → (∀ e ∈ l', e.copyDef = true → e.ws = w) → l' = l
-  | _, _, .nil, _, _ => rfl
-  | _, _, @BRelL.cons a b _ _ hab hr, h, h' => by
-    have hrest := synced_brel_eq hr (fun e he => h e (List.mem_cons_of_mem _ he))
-      (fun e he => h' e (List.mem_cons_of_mem _ he))
-    rw [hrest]
-    congr 1
-    obtain ⟨h1, h2⟩ := hab
-    cases a with | mk wa ca =>
-    cases b with | mk wb cb =>
-    simp only at h1 h2
-    subst h1
-    cases hca : ca with
-    | false => subst hca; simp [h2 rfl]
-    | true =>
-      subst hca
-      have ha := h ⟨wa, true⟩ (by simp) rfl
-      have hb := h' ⟨wb, true⟩ (by simp) rfl
-      simp only at ha hb
-      simp [ha, hb]
-
-/-- invariant of every command relative to a fixed list `b` of built-ins: they stay "the same objects"
-    and stay in sync with the default -/
-theorem run_builtins {cfg : Cfg} (hc : CfgOK cfg) (b : List Expr) : ∀ (cs : List Cmd) {m : Mach},
-    MachOK cfg m → BRelL b m.st.builtins → Synced m.st →
-    BRelL b (run cfg cs m).st.builtins ∧ Synced (run cfg cs m).st
-  | [], _, _, hb, hs => ⟨hb, hs⟩
-  | c :: cs, m, hm, hb, hs => by
+/-- no command changes which built-ins follow the default (`copyDefaultWhiteChars` flags), so the
+    built-ins inside a context are always "the same objects" as on entry -/
+theorem run_flags {cfg : Cfg} (hc : CfgOK cfg) : ∀ (cs : List Cmd) {m : Mach}, MachOK cfg m →
+    flagsOf (run cfg cs m).st.builtins = flagsOf m.st.builtins
+  | [], _, _ => rfl
+  | c :: cs, m, hm => by
     simp only [run]
-    have hm' := MachOK_step hc c hm
-    suffices h : BRelL b (stepCmd cfg c m).1.st.builtins ∧ Synced (stepCmd cfg c m).1.st from
-      run_builtins hc b cs hm' h.1 h.2
+    rw [run_flags hc cs (MachOK_step hc c hm)]
     cases c with
     | op o =>
       simp only [stepCmd]
-      rcases stepOp_builtins cfg o m.st with ⟨h1, h2⟩ | ⟨ch, h1, h2⟩
-      · refine ⟨by rw [h1]; exact hb, ?_⟩
-        intro e he hcd
-        rw [h1] at he
-        rw [h2]
-        exact hs e he hcd
-      · refine ⟨by rw [h1]; exact BRel_setDefaultWs ch b _ hb, ?_⟩
-        intro e he hcd
-        rw [h1] at he
-        rw [h2]
-        exact Synced_setDefaultWs ch m.st e he hcd
-    | enter =>
-      simp only [stepCmd, saveRaises_of_WF hm.wf, Bool.false_eq_true, if_false]
-      exact ⟨hb, hs⟩
-    | exit =>
+      rcases stepOp_builtins cfg o m.st with ⟨h1, _⟩ | ⟨ch, h1, _⟩
+      · rw [h1]
+      · rw [h1]; exact flagsOf_setDefaultWs ch m.st
+    | enter r => simp only [stepCmd, saveRaises_of_WF hm.wf, Bool.false_eq_true, if_false]
+    | exit v =>
       simp only [stepCmd]
       cases hstk : m.stack with
-      | nil => exact ⟨hb, hs⟩
+      | nil => rfl
       | cons sv rest =>
         simp only
         obtain ⟨s0, hs0, rfl⟩ := hm.frames sv (by rw [hstk]; simp)
         rw [restore_raw hc hs0 hm.wf]
-        simp only [restoredState]
-        by_cases hw : m.st.defaultWs = s0.defaultWs
-        · simp only [hw, bne_self_eq_false, Bool.false_eq_true, if_false]
-          refine ⟨hb, ?_⟩
-          intro e he hcd
-          simp only at he ⊢
-          rw [← hw]
-          exact hs e he hcd
-        · have hw' : (m.st.defaultWs != s0.defaultWs) = true := by simpa using hw
-          simp only [hw', if_true]
-          refine ⟨BRel_setDefaultWs s0.defaultWs b _ hb, ?_⟩
-          intro e he hcd
-          exact Synced_setDefaultWs s0.defaultWs m.st e he hcd
+        exact flagsOf_restoredBuiltins s0 m.st
+    | restoreLast =>
+      simp only [stepCmd]
+      cases hl : m.last with
+      | none => rfl
+      | some sv =>
+        simp only
+        obtain ⟨s0, hs0, rfl⟩ := hm.lastOK sv hl
+        rw [restore_raw hc hs0 hm.wf]
+        exact flagsOf_restoredBuiltins s0 m.st
 
 /-- **restore_total_and_exact.**  From any machine state reachable through the modelled API (`MachOK`),
     for *every* well-nested command sequence `body` (any setters in any order, `force=True` mode
@@ -109,22 +74,23 @@ theorem run_builtins {cfg : Cfg} (hc : CfgOK cfg) (b : List Expr) : ∀ (cs : Li
     * raises neither in `__enter__` nor in any `__exit__` (inner or outer),
     * leaves the stack of enclosing contexts as it was,
     * restores every setting (`obs`) to its value on entry, and the `recursion_memos` object itself,
-    * and, when the built-ins were in sync with the default on entry, restores every built-in's
-      `whiteChars` (see `builtins_unsynced_not_restored` for why the hypothesis is needed). -/
+    * and restores every built-in's `whiteChars` — also of built-ins whose own set was not the
+      default's on entry, such as `line_start` (see `live_builtins_restored_though_unsynced`). -/
 theorem restore_total_and_exact {cfg : Cfg} (hc : CfgOK cfg) (m : Mach) (hm : MachOK cfg m)
-    (body : List Cmd) (hb : Balanced body) :
-    (run cfg (.enter :: body ++ [.exit]) m).ctxErr = false ∧
-    (run cfg (.enter :: body ++ [.exit]) m).stack = m.stack ∧
-    obs (run cfg (.enter :: body ++ [.exit]) m).st = obs m.st ∧
-    (run cfg (.enter :: body ++ [.exit]) m).st.memo = m.st.memo ∧
-    (Synced m.st → (run cfg (.enter :: body ++ [.exit]) m).st.builtins = m.st.builtins) := by
-  have hfin := MachOK_run hc (.enter :: body ++ [.exit]) hm
+    (body : List Cmd) (hb : Balanced body) (r v : Bool) :
+    (run cfg (.enter r :: body ++ [.exit v]) m).ctxErr = false ∧
+    (run cfg (.enter r :: body ++ [.exit v]) m).stack = m.stack ∧
+    obs (run cfg (.enter r :: body ++ [.exit v]) m).st = obs m.st ∧
+    (run cfg (.enter r :: body ++ [.exit v]) m).st.memo = m.st.memo ∧
+    (run cfg (.enter r :: body ++ [.exit v]) m).st.builtins = m.st.builtins := by
+  have hfin := MachOK_run hc (.enter r :: body ++ [.exit v]) hm
   refine ⟨hfin.noErr, ?_⟩
   simp only [List.cons_append, run]
   rw [run_append]
-  have h1 : (stepCmd cfg .enter m).1 = { m with stack := save cfg m.st :: m.stack } := by
+  have h1 : (stepCmd cfg (.enter r) m).1
+      = { m with stack := save cfg m.st :: m.stack, last := if r then none else m.last } := by
     simp only [stepCmd, saveRaises_of_WF hm.wf, Bool.false_eq_true, if_false]
-  have hm1 : MachOK cfg (stepCmd cfg .enter m).1 := MachOK_step hc .enter hm
+  have hm1 : MachOK cfg (stepCmd cfg (.enter r) m).1 := MachOK_step hc (.enter r) hm
   rw [h1] at hm1 ⊢
   obtain ⟨pre', hst, hlen⟩ := run_stack body 0 0 _ [] (save cfg m.st :: m.stack) hm1 hc hb rfl rfl
   have hpre : pre' = [] := List.eq_nil_of_length_eq_zero hlen
@@ -134,60 +100,49 @@ theorem restore_total_and_exact {cfg : Cfg} (hc : CfgOK cfg) (m : Mach) (hm : Ma
   simp only [run, stepCmd, hst]
   rw [restore_raw hc hm.wf hm2.wf]
   refine ⟨by first | rfl | trivial, obs_restoredState _ _, by first | rfl | trivial, ?_⟩
-  intro hsync
-  have hinv := run_builtins hc m.st.builtins body hm1 (BRel_refl _) hsync
-  simp only [restoredState]
-  by_cases hw : (run cfg body { m with stack := save cfg m.st :: m.stack }).st.defaultWs = m.st.defaultWs
-  · simp only [hw, bne_self_eq_false, Bool.false_eq_true, if_false]
-    refine synced_brel_eq hinv.1 hsync ?_
-    intro e he hcd
-    rw [← hw]
-    exact hinv.2 e he hcd
-  · have hw' : ((run cfg body { m with stack := save cfg m.st :: m.stack }).st.defaultWs != m.st.defaultWs) = true := by
-      simpa using hw
-    simp only [hw', if_true]
-    refine synced_brel_eq (BRel_setDefaultWs m.st.defaultWs _ _ hinv.1) hsync ?_
-    intro e he hcd
-    exact Synced_setDefaultWs m.st.defaultWs _ e he hcd
+  exact restoredBuiltins_eq _ _ (run_flags hc body hm1)
 
 /-- non-vacuity: the design-time finding F3 as a command sequence (enter with packrat on, switch to left
     recursion with `force=True` inside, plus a nested context switching back) is `Balanced`, starts
     from a `MachOK` machine, and really changes the settings inside -/
-def exM0 : Mach := ⟨(stepOp liveCfg (.enablePackrat (some 64) false) liveInit).1, [], false⟩
+def exM0 : Mach := ⟨(stepOp liveCfg (.enablePackrat (some 64) false) liveInit).1, [], false, none⟩
 def exBody : List Cmd :=
-  [.op (.enableLR none true), .enter, .op (.enablePackrat none true), .op (.setDefaultWs " "), .exit,
+  [.op (.enableLR none true), .enter false, .op (.enablePackrat none true), .op (.setDefaultWs " "), .exit true,
+   .restoreLast, .enter true, .op (.setKwChars "abc"), .exit false,
    .op (.compatAssign "collect_all_And_tokens" false)]
 
-example : Balanced exBody ∧ obs (run liveCfg (.enter :: exBody) exM0).st ≠ obs exM0.st ∧
-    obs (run liveCfg (.enter :: exBody ++ [.exit]) exM0).st = obs exM0.st := by
-  decide
+example : Balanced exBody ∧ obs (run liveCfg (.enter false :: exBody) exM0).st ≠ obs exM0.st ∧
+    obs (run liveCfg (.enter false :: exBody ++ [.exit false]) exM0).st = obs exM0.st := by
+  decide +kernel
 
 /-- the same for the live package: every entry configuration reachable from `import pyparsing` by any
     command sequence `pre` (possibly already inside contexts), every well-nested `body` -/
-theorem live_restore_total_and_exact (pre body : List Cmd) (hb : Balanced body) :
-    let m := run liveCfg pre ⟨liveInit, [], false⟩
-    let m' := run liveCfg (.enter :: body ++ [.exit]) m
-    m'.ctxErr = false ∧ m'.stack = m.stack ∧ obs m'.st = obs m.st ∧ m'.st.memo = m.st.memo := by
+theorem live_restore_total_and_exact (pre body : List Cmd) (hb : Balanced body) (r v : Bool) :
+    let m := run liveCfg pre ⟨liveInit, [], false, none⟩
+    let m' := run liveCfg (.enter r :: body ++ [.exit v]) m
+    m'.ctxErr = false ∧ m'.stack = m.stack ∧ obs m'.st = obs m.st ∧ m'.st.memo = m.st.memo ∧
+    m'.st.builtins = m.st.builtins := by
   have hc : CfgOK liveCfg := ⟨by decide, by decide, by decide⟩
-  have h0 : MachOK liveCfg ⟨liveInit, [], false⟩ :=
-    ⟨⟨by decide, by decide, by decide, by decide⟩, by simp, rfl⟩
+  have h0 : MachOK liveCfg ⟨liveInit, [], false, none⟩ :=
+    ⟨⟨by decide, by decide, by decide, by decide⟩, by simp, rfl, by simp⟩
   have hm := MachOK_run hc pre h0
-  have := restore_total_and_exact hc _ hm body hb
-  exact ⟨this.1, this.2.1, this.2.2.1, this.2.2.2.1⟩
+  exact restore_total_and_exact hc _ hm body hb r v
 
-/-- The hypothesis `Synced` of the built-ins clause cannot be dropped, and the pristine state of the
-    live package does not satisfy it: the built-in `line_start` follows the default
-    (`copyDefaultWhiteChars`) but its `whiteChars` lack `"\n"` (LineStart.__init__ discards it), so
-    a change of the default inside a context followed by the restore leaves it with a different set. -/
-theorem builtins_unsynced_not_restored :
+/-- The built-ins clause needs no "in sync with the default" hypothesis, and that matters for the live
+    package: its pristine state is *not* in sync (the built-in `line_start` follows the default,
+    `copyDefaultWhiteChars`, but its `whiteChars` lack `"\n"` because LineStart.__init__ discards it),
+    a change of the default inside a context does change that built-in, and leaving the context puts its
+    own set back (before /repo e056afa it came back as the full default set: finding
+    `unsynced_builtin_whitechars_not_restored`). -/
+theorem live_builtins_restored_though_unsynced :
     ¬ Synced liveInit ∧
-    (run liveCfg [.enter, .op (.setDefaultWs " "), .exit] ⟨liveInit, [], false⟩).st.builtins ≠ liveInit.builtins := by
-  constructor
-  · intro h
-    have := h ⟨['\t', '\r', ' '], true⟩ (by decide) rfl
-    revert this
-    decide
-  · decide
+    (run liveCfg [.enter false, .op (.setDefaultWs " ")] ⟨liveInit, [], false, none⟩).st.builtins ≠ liveInit.builtins ∧
+    (run liveCfg [.enter false, .op (.setDefaultWs " "), .exit false] ⟨liveInit, [], false, none⟩).st.builtins = liveInit.builtins := by
+  refine ⟨?_, by decide, by decide⟩
+  intro h
+  have := h ⟨['\t', '\r', ' '], true⟩ (by decide) rfl
+  revert this
+  decide
 
 /-! ## 2. packrat and left recursion refuse to be combined unless `force=True` -/
 
@@ -254,43 +209,65 @@ theorem Excl_stepOp (cfg : Cfg) (o : Op) {s : State} (h : Excl s) : Excl (stepOp
   | wrapExpr i => simp only [stepOp]; split <;> exact h
   | _ => exact h
 
+/-- a saved context taken while at most one mode was on -/
+def SavedExcl (sv : Saved) : Prop := ¬ (sv.packratEnabled = true ∧ sv.lrEnabled = true)
+
+/-- exclusivity of the current state and of every saved context still around -/
+structure ExclM (m : Mach) : Prop where
+  st : Excl m.st
+  frames : ∀ sv ∈ m.stack, SavedExcl sv
+  last : ∀ sv, m.last = some sv → SavedExcl sv
+
+theorem ExclM_step {cfg : Cfg} (hc : CfgOK cfg) (c : Cmd) {m : Mach} (hm : MachOK cfg m) (h : ExclM m) :
+    ExclM (stepCmd cfg c m).1 := by
+  cases c with
+  | op o => exact ⟨Excl_stepOp cfg o h.st, h.frames, h.last⟩
+  | enter r =>
+    simp only [stepCmd, saveRaises_of_WF hm.wf, Bool.false_eq_true, if_false]
+    refine ⟨h.st, ?_, ?_⟩
+    · intro sv hsv
+      simp only [List.mem_cons] at hsv
+      rcases hsv with rfl | hsv
+      · exact h.st
+      · exact h.frames sv hsv
+    · intro sv hsv
+      cases r with
+      | true => simp at hsv
+      | false => exact h.last sv (by simpa using hsv)
+  | exit v =>
+    simp only [stepCmd]
+    cases hstk : m.stack with
+    | nil => exact h
+    | cons sv rest =>
+      simp only
+      have hsv := h.frames sv (by rw [hstk]; simp)
+      obtain ⟨s0, hs0, rfl⟩ := hm.frames sv (by rw [hstk]; simp)
+      rw [restore_raw hc hs0 hm.wf]
+      refine ⟨hsv, ?_, ?_⟩
+      · intro sv' hsv'
+        exact h.frames sv' (by rw [hstk]; exact List.mem_cons_of_mem _ hsv')
+      · intro sv' hsv'
+        simp only [Option.some.injEq] at hsv'
+        subst hsv'
+        exact hsv
+  | restoreLast =>
+    simp only [stepCmd]
+    cases hl : m.last with
+    | none => exact h
+    | some sv =>
+      simp only
+      have hsv := h.last sv hl
+      obtain ⟨s0, hs0, rfl⟩ := hm.lastOK sv hl
+      rw [restore_raw hc hs0 hm.wf]
+      exact ⟨hsv, h.frames, fun sv' hsv' => h.last sv' (by simpa [hl] using hsv')⟩
+
 /-- **the two modes are never on together**, whatever is done — setters with or without `force`,
-    contexts entered and left in any order (well nested or not) — starting from any reachable machine
-    whose state and saved contexts are exclusive -/
+    contexts entered, re-entered, left (directly or through a copy) and restored again in any order
+    (well nested or not) — starting from any reachable machine whose state and saved contexts are exclusive -/
 theorem packrat_lr_never_both {cfg : Cfg} (hc : CfgOK cfg) : ∀ (cs : List Cmd) (m : Mach), MachOK cfg m →
-    Excl m.st → (∀ sv ∈ m.stack, ¬ (sv.packratEnabled = true ∧ sv.lrEnabled = true)) →
-    Excl (run cfg cs m).st
-  | [], _, _, h, _ => h
-  | c :: cs, m, hm, h, hf => by
-    simp only [run]
-    have hm' := MachOK_step hc c hm
-    cases c with
-    | op o => exact packrat_lr_never_both hc cs _ hm' (Excl_stepOp cfg o h) hf
-    | enter =>
-      refine packrat_lr_never_both hc cs _ hm' ?_ ?_
-      · simp only [stepCmd, saveRaises_of_WF hm.wf, Bool.false_eq_true, if_false]; exact h
-      · simp only [stepCmd, saveRaises_of_WF hm.wf, Bool.false_eq_true, if_false]
-        intro sv hsv
-        simp only [List.mem_cons] at hsv
-        rcases hsv with rfl | hsv
-        · exact h
-        · exact hf sv hsv
-    | exit =>
-      cases hstk : m.stack with
-      | nil =>
-        refine packrat_lr_never_both hc cs _ hm' ?_ ?_
-        · simp only [stepCmd, hstk]; exact h
-        · simp only [stepCmd, hstk]; simp
-      | cons sv rest =>
-        obtain ⟨s0, hs0, rfl⟩ := hm.frames sv (by rw [hstk]; simp)
-        have hsv := hf (save cfg s0) (by rw [hstk]; simp)
-        refine packrat_lr_never_both hc cs _ hm' ?_ ?_
-        · simp only [stepCmd, hstk]
-          rw [restore_raw hc hs0 hm.wf]
-          exact hsv
-        · simp only [stepCmd, hstk]
-          intro sv' hsv'
-          exact hf sv' (by rw [hstk]; exact List.mem_cons_of_mem _ hsv')
+    ExclM m → Excl (run cfg cs m).st
+  | [], _, _, h => h.st
+  | c :: cs, _, hm, h => packrat_lr_never_both hc cs _ (MachOK_step hc c hm) (ExclM_step hc c hm h)
 
 /-- `_parse` is the caching parse function exactly while packrat is flagged enabled — after any
     command sequence (so `disable_memoization` / `force=True` really switch the packrat mechanism off,
@@ -302,9 +279,9 @@ theorem parse_selector_follows_packrat {cfg : Cfg} (hc : CfgOK cfg) (cs : List C
   ⟨h.sel, fun hp => (h.cache hp).1⟩
 
 /-- for the live package: never both, on any command sequence after import -/
-theorem live_packrat_lr_never_both (cs : List Cmd) : Excl (run liveCfg cs ⟨liveInit, [], false⟩).st :=
+theorem live_packrat_lr_never_both (cs : List Cmd) : Excl (run liveCfg cs ⟨liveInit, [], false, none⟩).st :=
   packrat_lr_never_both ⟨by decide, by decide, by decide⟩ cs _
-    ⟨⟨by decide, by decide, by decide, by decide⟩, by simp, rfl⟩ (by decide) (by simp)
+    ⟨⟨by decide, by decide, by decide, by decide⟩, by simp, rfl, by simp⟩ ⟨by decide, by simp, by simp⟩
 
 /-! ## 3. `enable_packrat` is idempotent -/
 
@@ -358,14 +335,23 @@ theorem users_untouched {cfg : Cfg} (hc : CfgOK cfg) : ∀ (cs : List Cmd) (m : 
       intro i ch cd ho
       have := hcs _ (List.mem_cons_self)
       simp [ho, Cmd.isExprSetWs] at this
-    | enter =>
+    | enter r =>
       exact ⟨[], by simp [stepCmd, saveRaises_of_WF hm.wf]⟩
-    | exit =>
+    | exit v =>
       simp only [stepCmd]
       cases hstk : m.stack with
       | nil => exact ⟨[], by simp⟩
       | cons sv rest =>
         obtain ⟨s0, hs0, rfl⟩ := hm.frames sv (by rw [hstk]; simp)
+        simp only
+        rw [restore_raw hc hs0 hm.wf]
+        exact ⟨[], by simp [restoredState]⟩
+    | restoreLast =>
+      simp only [stepCmd]
+      cases hl : m.last with
+      | none => exact ⟨[], by simp⟩
+      | some sv =>
+        obtain ⟨s0, hs0, rfl⟩ := hm.lastOK sv hl
         simp only
         rw [restore_raw hc hs0 hm.wf]
         exact ⟨[], by simp [restoredState]⟩
@@ -405,10 +391,10 @@ theorem default_ws_scope_partial (cfg : Cfg) (c : String) (s : State) :
 /-- corollary of `restore_total_and_exact`: an expression built right after a context has been left gets
     the whitespace set of the default that was in force when the context was entered -/
 theorem new_expr_after_exit {cfg : Cfg} (hc : CfgOK cfg) (m : Mach) (hm : MachOK cfg m)
-    (body : List Cmd) (hb : Balanced body) :
-    newExpr (run cfg (.enter :: body ++ [.exit]) m).st = newExpr m.st := by
-  have h := (restore_total_and_exact hc m hm body hb).2.2.1
-  have hw : (run cfg (.enter :: body ++ [.exit]) m).st.defaultWs = m.st.defaultWs := by
+    (body : List Cmd) (hb : Balanced body) (r v : Bool) :
+    newExpr (run cfg (.enter r :: body ++ [.exit v]) m).st = newExpr m.st := by
+  have h := (restore_total_and_exact hc m hm body hb r v).2.2.1
+  have hw : (run cfg (.enter r :: body ++ [.exit v]) m).st.defaultWs = m.st.defaultWs := by
     have := congrArg Obs.defaultWs h
     simpa [obs] using this
   unfold newExpr
